@@ -1,6 +1,7 @@
 package checks
 
 import (
+	"fmt"
 	"regexp"
 	"strings"
 	"time"
@@ -428,7 +429,52 @@ func flatten(parts [][]T) []T {
 	return out
 }
 
+// F6: sweep of the head size (number of head instructions = distinct arguments) against top-level
+// disjunctive bodies, in clauses, called goals and queries: any size-dependent behaviour of the
+// clause compiler's buffers (capacity boundaries) falls on some size.
+func c01F6(w *h.W) {
+	bodies := []string{
+		"(X = 1 ; X = 2)", "(fail ; true)", "(true ; fail ; X = 3)", "(g1(X) ; g2(X) ; X = z)", "(X = 1, Y = a ; X = 2, Y = b ; Y = c)",
+		"(g1(X), g2(Y) ; g2(Y) ; g1(X))", "(g2(Y) ; g1(X), g2(Y), X = 2)",
+	}
+	base := rdAll("g1(1). g1(2). g2(a). g2(b).")
+	for n := 0; n <= w.Pick(34, 70); n++ {
+		for bi, b := range bodies {
+			if !w.Mine() {
+				continue
+			}
+			vars := map[string]*ref.Var{}
+			var as []T
+			var probe []T
+			for i := 1; i <= n; i++ {
+				as = append(as, rdv(fmt.Sprintf("A%d", i), vars))
+				probe = append(probe, A("k"))
+			}
+			body := rdv(b, vars)
+			// the head: n plain variable arguments, or compound arguments that cost several instructions
+			head := &ref.Cmp{F: "hd", Args: append(append([]T{}, as...), rdv("X", vars), rdv("Y", vars))}
+			head2 := &ref.Cmp{F: "hc", Args: []T{ref.List(as...), Cm("f", rdv("X", vars), rdv("Y", vars))}}
+			cls := append(append([]T{}, base...), Cm(":-", head, body), Cm(":-", head2, body))
+			q1 := &ref.Cmp{F: "hd", Args: append(append([]T{}, probe...), V("X"), V("Y"))}
+			q2 := &ref.Cmp{F: "hc", Args: []T{ref.List(probe...), Cm("f", V("X"), V("Y"))}}
+			// the same disjunction called through call/1 with n additional free variables in the goal
+			var extra []T
+			for i := 1; i <= n; i++ {
+				extra = append(extra, Cm("=", V(fmt.Sprintf("B%d", i)), V(fmt.Sprintf("B%d", i))))
+			}
+			q3 := Cm("call", Cm(",", conj(extra...), rd(b)))
+			q4 := Cm("call", Cm(";", Cm(",", conj(extra...), rd("X = first")), rd(b)))
+			pc := &h.ProgCase{Steps: []h.ProgStep{h.Consult(cls...), h.Query(q1, 12), h.Query(q2, 12)}}
+			s3, s4 := h.Query(q3, 12), h.Query(q4, 12)
+			s3.Vars, s4.Vars = []string{"X", "Y"}, []string{"X", "Y"}
+			pc.Steps = append(pc.Steps, s3, s4)
+			runProgCase(w, "F6", pc, n+bi)
+		}
+	}
+}
+
 func c01Work(w *h.W) {
+	c01F6(w)
 	c01F3(w)
 	c01F4(w)
 	c01F5(w)
@@ -439,7 +485,7 @@ func c01Work(w *h.W) {
 func init() {
 	h.Register(&h.Check{
 		ID: "C01",
-		Rule: "bounded-exhaustive program enumeration: F1 all clause sequences of length <= K over a 21-clause menu for p/1, q/1 (facts, rules, direct and mutual recursion, nested disjunction, call/N, lists) x 7 queries; F2 all head terms of depth <= 2 over {a,X,Y,[],f/1,g/2,'.'/2} x all call arguments of depth <= 1 and vice versa, all bodies building such a term, all pairs of depth-1 heads; F3 all clause bodies of <= L items over 17 goal shapes (call/N, nested ;/, , closures) as clause, top-level disjunct and query, and every call/N split of an 8-ary goal; F4 string literals in heads vs list calls under each double_quotes flag. Non-trivial = the reference produces at least one answer or an error; distinct = distinct program+queries text.",
+		Rule: "bounded-exhaustive program enumeration: F1 all clause sequences of length <= K over a 21-clause menu for p/1, q/1 (facts, rules, direct and mutual recursion, nested disjunction, call/N, lists) x 7 queries; F2 all head terms of depth <= 2 over {a,X,Y,[],f/1,g/2,'.'/2} x all call arguments of depth <= 1 and vice versa, all bodies building such a term, all pairs of depth-1 heads; F3 all clause bodies of <= L items over 17 goal shapes (call/N, nested ;/, , closures) as clause, top-level disjunct and query, and every call/N split of an 8-ary goal; F4 string literals in heads vs list calls under each double_quotes flag; F5 every construction of a list from nested partial lists against head list patterns; F6 sweep of the head size 0..34 (70) against 7 top-level disjunctive bodies, in clauses and through call/1 with as many extra free variables. Non-trivial = the reference produces at least one answer or an error; distinct = distinct program+queries text.",
 		Explanation: "state = one generated program (loaded into a fresh real interpreter); transition = one query run to exhaustion (or 8..40 answers) on the real interpreter whose full answer sequence, terminal status, error term and output are compared with the reference machine; traces_validated = programs whose every query was decided (reference within its step budget)",
 		Assumptions: []string{
 			"reference: ref/solve (goal-stack / choice-point machine with a destructive trail, ISO 13211-1 semantics, self-checked against the ISO examples for cut, catch/throw, all-solutions and database predicates)",
